@@ -432,6 +432,12 @@ func byteSetOf(c *Ctx, rule string, fn *ssa.Function) (map[int64]bool, bool) {
 		for _, cd := range p.Conds {
 			baseTerms(cd.Cond, bases)
 		}
+		// a result read from a constant table depends on the table's key
+		if p.Ret != nil && len(p.Ret.Results) == 1 {
+			if rt := p.Env.Term(p.Ret.Results[0]); rt.K != "const" {
+				baseTerms(rt, bases)
+			}
+		}
 	}
 	if len(bases) != 1 {
 		var bs []string
@@ -464,11 +470,18 @@ func byteSetOf(c *Ctx, rule string, fn *ssa.Function) (map[int64]bool, bool) {
 				return nil, false
 			}
 			rt := p.Env.Term(p.Ret.Results[0])
-			if rt.K != "const" || rt.C == nil || rt.C.Kind() != constant.Bool {
+			if rt.K == "const" && rt.C != nil && rt.C.Kind() == constant.Bool {
+				if constant.BoolVal(rt.C) {
+					out[v] = true
+				}
+				continue
+			}
+			rv, okv := evalTerm(rt, asg)
+			if !okv {
 				c.Undecided(rule, funcName(fn), fn.Pos(), "non-constant boolean result "+rt.String())
 				return nil, false
 			}
-			if constant.BoolVal(rt.C) {
+			if rv.Sign() != 0 {
 				out[v] = true
 			}
 		}
